@@ -38,7 +38,7 @@ func genC12(r *Rng, tier string, idx int) *Program {
 	p.Cfg.LevelMs = []int64{2000, 9000}[:r.Range(1, 2)]
 	p.Cfg.MaxSyncWALBytes = []int64{0, 1, 3000, 64 << 20}[r.Intn(4)]
 	nt := r.Range(2, 5)
-	p.Params = map[string]int64{"tasks": int64(nt)}
+	p.Params = map[string]int64{"tasks": int64(nt), "sql_seam": int64(r.Intn(2))}
 	// task 0: application writer
 	for i := 0; i < r.Range(3, 10); i++ {
 		st := genAppStep(r, &p.Cfg)
@@ -179,6 +179,12 @@ func runC12Bubble(e *Env, p *Program, res *Result) {
 	}
 	e.FS = NewFaultStore(nil, nil)
 	e.FS.Locked = true
+	if p.Params["sql_seam"] == 1 {
+		installSQLSeam() // every SQL statement of litestream is a scheduling point
+	} else {
+		uninstallSQLSeam()
+	}
+	defer uninstallSQLSeam()
 	if err := e.startLS(); err != nil {
 		res.Trouble = "start litestream: " + err.Error()
 		return
@@ -271,6 +277,22 @@ func runC12Bubble(e *Env, p *Program, res *Result) {
 	if len(stuck) > 0 {
 		res.Violation = e.fail("call-never-returns", "after the schedule ended and every yield was released, these calls still have not returned: %v", stuck)
 		return
+	}
+	// no lock outlives the calls: at quiescence the executor semaphore and the
+	// checkpoint lock of every instance are free
+	res.Checks++
+	lockDBs := append([]*litestream.DB{}, extraDBs...)
+	for _, d := range store.DBs() {
+		lockDBs = append(lockDBs, d)
+	}
+	if e.LS.DB != nil {
+		lockDBs = append(lockDBs, e.LS.DB)
+	}
+	for _, d := range lockDBs {
+		if execFree, chkFree := d.VerifLocksFree(); !execFree || !chkFree {
+			res.Violation = e.fail("leaked-lock", "every call has returned and every snapshot reader is closed, yet a DB instance still has its executor semaphore taken=%v / checkpoint lock taken=%v (checkpoints will be skipped for the rest of the process)", !execFree, !chkFree)
+			return
+		}
 	}
 	// single managed instance per path
 	n := 0
